@@ -7,6 +7,7 @@ import LyonVerif.Drive.Common
 import LyonVerif.Model.Tess.StrokeParts
 import LyonVerif.Model.Tess.StrokeFull
 import LyonVerif.Model.Tess.StrokeAttrs
+import LyonVerif.Model.Tess.StrokeBuilderProg
 
 namespace Lyon.Drive.C05
 open Lyon Lyon.Drive Lyon.Stroke
@@ -250,11 +251,51 @@ def fulle [HasIx α] [Asin α] [FlatConst α] (v : Array String) : String :=
     fOutAttrs (attrsSeq (if fwIds then fun _ => [] else store) out.verts ⟨false, []⟩) out
   | none => "panic"
 
+/-! a PROGRAM on one `StrokeBuilder` (`Model/Tess/StrokeBuilderProg.lean`): several sub-paths, the shape
+helpers, the option setters on the object `StrokeTessellator::builder` / `builder_with_attributes` returns
+(and the one-shot `tessellate_rectangle` / `_circle` / `_ellipse` / `_polygon` built on it):
+`prog tol width ml join cap1 cap2 variable nattr ncmd (B x y a* | L x y a* | Q cx cy x y a* |
+ C c1x c1y c2x c2y x y a* | E close | R minx miny maxx maxy positive a* | P n closed (x y)* a* |
+ S px py qx qy a* | O x y a* | SJ join | SS cap | SE cap | SM ml)*` → every vertex (all accessors,
+interpolated attributes), every triangle -/
+
+open Lyon.Stroke.Prog in
+def rdCmds (v : Array String) (nattr : Nat) : Nat → Nat → List (Cmd α)
+  | 0, _ => []
+  | n+1, i =>
+    match v.getD i "" with
+    | "B" => Cmd.begin (rdP v (i+1)) (rdList v (i+3) nattr) :: rdCmds v nattr n (i + 3 + nattr)
+    | "L" => Cmd.line (rdP v (i+1)) (rdList v (i+3) nattr) :: rdCmds v nattr n (i + 3 + nattr)
+    | "Q" => Cmd.quad (rdP v (i+1)) (rdP v (i+3)) (rdList v (i+5) nattr) :: rdCmds v nattr n (i + 5 + nattr)
+    | "C" => Cmd.cubic (rdP v (i+1)) (rdP v (i+3)) (rdP v (i+5)) (rdList v (i+7) nattr) :: rdCmds v nattr n (i + 7 + nattr)
+    | "E" => Cmd.end_ (rdBool v (i+1)) :: rdCmds v nattr n (i + 2)
+    | "R" => Cmd.rect (rdP v (i+1)) (rdP v (i+3)) (rdBool v (i+5)) (rdList v (i+6) nattr) :: rdCmds v nattr n (i + 6 + nattr)
+    | "P" =>
+      let k := rdNat v (i+1)
+      Cmd.polygon (rdPts v k (i+3)) (rdBool v (i+2)) (rdList v (i + 3 + 2 * k) nattr) :: rdCmds v nattr n (i + 3 + 2 * k + nattr)
+    | "S" => Cmd.segment (rdP v (i+1)) (rdP v (i+3)) (rdList v (i+5) nattr) :: rdCmds v nattr n (i + 5 + nattr)
+    | "O" => Cmd.point (rdP v (i+1)) (rdList v (i+3) nattr) :: rdCmds v nattr n (i + 3 + nattr)
+    | "SJ" => Cmd.setJoin (joinOf (v.getD (i+1) "")) :: rdCmds v nattr n (i + 2)
+    | "SS" => Cmd.setStartCap (capOf (v.getD (i+1) "")) :: rdCmds v nattr n (i + 2)
+    | "SE" => Cmd.setEndCap (capOf (v.getD (i+1) "")) :: rdCmds v nattr n (i + 2)
+    | _ => Cmd.setMiterLimit (rd v (i+1)) :: rdCmds v nattr n (i + 2)
+
+open Lyon.Stroke.Prog in
+def prog [HasIx α] [Asin α] [FlatConst α] (v : Array String) : String :=
+  let o : Opts α := ⟨rd v 0, rd v 1, rd v 2, joinOf (v.getD 3 ""), capOf (v.getD 4 ""), capOf (v.getD 5 ""), rdBool v 6, 0⟩
+  let nattr := rdNat v 7
+  let cmds : List (Cmd α) := rdCmds v nattr (rdNat v 8) 9
+  let its := expand ⟨o, 0⟩ cmds
+  match tessellateProg o HasIx.ix cmds with
+  | some out => fOutAttrs (attrsSeq (storeOf its) out.verts ⟨false, []⟩) out
+  | none => "panic"
+
 end Full
 
 def families : List Family := [
   ⟨"full", full (α := Float32), full (α := Float)⟩,
   ⟨"fulle", fulle (α := Float32), fulle (α := Float)⟩,
+  ⟨"prog", prog (α := Float32), prog (α := Float)⟩,
   ⟨"poly", poly (α := Float32), poly (α := Float)⟩,
   ⟨"cn", cn (α := Float32), cn (α := Float)⟩,
   ⟨"cfs", cfs (α := Float32), cfs (α := Float)⟩,
